@@ -71,7 +71,7 @@ int main(int argc,char**argv){
   json::Object top; top["datalayout"]=DL.getStringRepresentation();
   json::Object structs; for (auto *ST: M->getIdentifiedStructTypes()){ if(ST->isOpaque()) continue; json::Object so; auto *SL=DL.getStructLayout(ST); so["size"]=(int64_t)SL->getSizeInBytes(); json::Array fs; for(unsigned i=0;i<ST->getNumElements();i++){ json::Object f; f["off"]=(int64_t)SL->getElementOffset(i); f["size"]=(int64_t)DL.getTypeStoreSize(ST->getElementType(i)).getFixedSize(); f["t"]=tyStr(ST->getElementType(i)); fs.push_back(std::move(f)); } so["fields"]=std::move(fs); structs[ST->getName().str()]=std::move(so);} top["structs"]=std::move(structs);
   json::Array globals; for (auto &G: M->globals()){ json::Object g; g["name"]=G.getName().str(); g["constant"]=G.isConstant(); g["internal"]=G.hasLocalLinkage(); g["t"]=tyStr(G.getValueType());
-    if (G.hasInitializer()){ if (auto*CDS=dyn_cast<ConstantDataSequential>(G.getInitializer())){ if(CDS->isString()||CDS->getElementByteSize()==1){ std::string hex; StringRef raw=CDS->getRawDataValues(); static const char*H="0123456789abcdef"; for(unsigned char ch: raw){hex.push_back(H[ch>>4]);hex.push_back(H[ch&15]);} g["bytes"]=hex; } } else if (auto*CI=dyn_cast<ConstantInt>(G.getInitializer())){ g["int"]=apStr(CI->getValue()); g["bits"]=(int64_t)CI->getBitWidth(); } else if (auto *CS=dyn_cast<ConstantStruct>(G.getInitializer())){ json::Array a; for(auto&U:CS->operands()) a.push_back(operand(C,U)); g["struct"]=std::move(a);} }
+    if (G.hasInitializer()){ if (auto*CDS=dyn_cast<ConstantDataSequential>(G.getInitializer())){ if(true){ std::string hex; /* raw little-endian bytes of any constant data array (lookup tables of wider integers too) */ StringRef raw=CDS->getRawDataValues(); static const char*H="0123456789abcdef"; for(unsigned char ch: raw){hex.push_back(H[ch>>4]);hex.push_back(H[ch&15]);} g["bytes"]=hex; } } else if (isa<ConstantAggregateZero>(G.getInitializer())){ uint64_t n=DL.getTypeAllocSize(G.getValueType()).getFixedSize(); if(n<=65536) g["bytes"]=std::string(2*n,'0'); } else if (auto*CI=dyn_cast<ConstantInt>(G.getInitializer())){ g["int"]=apStr(CI->getValue()); g["bits"]=(int64_t)CI->getBitWidth(); } else if (auto *CS=dyn_cast<ConstantStruct>(G.getInitializer())){ json::Array a; for(auto&U:CS->operands()) a.push_back(operand(C,U)); g["struct"]=std::move(a);} }
     globals.push_back(std::move(g)); } top["globals"]=std::move(globals);
   { DebugInfoFinder DIF; DIF.processModule(*M); json::Object dits; json::Object enums; json::Object typedefs;
     for (auto *T: DIF.types()) {
